@@ -345,11 +345,13 @@ func buildCompType(t M, env tenv) cadence.Type {
 	default:
 		hfail("unknown composite kind in %v", canonJSON(t))
 	}
-	if _, dup := env[tid]; dup {
-		hfail("composite type %s nested inside itself without a rec reference", tid)
+	if outer, dup := env[tid]; dup {
+		// the same type ID inside itself with another shape (argument corruptions): an independent type object
+		defer func() { env[tid] = outer }()
+	} else {
+		defer delete(env, tid)
 	}
 	env[tid] = res
-	defer delete(env, tid)
 	fields := buildFields(seq(t, "fields"), env)
 	var inits [][]cadence.Parameter
 	for _, in := range seq(t, "inits") {
